@@ -217,11 +217,14 @@ func EvalString(this any, code string, emptyEnv bool) (object.Object, error) {
 	evalState, ok := this.(*State)
 	if emptyEnv {
 		maxDepth := DefaultMaxDepth
+		var ctx context.Context
 		if ok {
 			maxDepth = evalState.MaxDepth // in case it's lower, carry that lower value.
+			ctx = evalState.Context       // and the caller's deadline / cancellation.
 		}
 		evalState = NewBlankState()
 		evalState.MaxDepth = maxDepth
+		evalState.Context = ctx
 	} else {
 		if !ok {
 			return object.NULL, fmt.Errorf("invalid this: %T", this)
